@@ -186,6 +186,7 @@ structure GRow where
   cd : Int
   ps : Option Int
   seid : Option Int
+deriving DecidableEq
 
 def GRow.fields (w : Nat) (short : Bool) (r : GRow) : List Txt :=
   [fmtI w r.id, fmtI w r.cp, r.x, r.y, r.z, fmtI w r.cd] ++ (if short then [] else [fmtO w r.ps, fmtO w r.seid])
